@@ -1321,7 +1321,11 @@ pub fn run(args: &Args, rep: &mut Report) {
 
     let t0 = std::time::Instant::now(); // for a cost note only, never for a verdict
     // 1. exhaustive boundary enumeration of every generator (depth-first over its choices)
-    let enum_cap = args.u64("enum-cap", if thorough { 5_000_000 } else { 400_000 });
+    // interpreter leg (Miri): the first `enum-cap` boundary values of every generator, every 97th sizing sequence
+    // and `--budget` random values -- the same oracles, so that every encoder / decoder / PacketWriter path is
+    // executed under the interpreter's bounds, alignment, validity and aliasing checks
+    let interp = args.flag("interp");
+    let enum_cap = args.u64("enum-cap", if interp { 40 } else if thorough { 5_000_000 } else { 400_000 });
     let mut idx = 0u64;
     for group in ["frame", "header", "params", "prim"] {
         let mut digits = vec![];
@@ -1365,7 +1369,9 @@ pub fn run(args: &Args, rep: &mut Report) {
                 Some(d) if n_group < enum_cap => digits = d,
                 Some(_) => {
                     rep.exhaustive = Some(false);
-                    rep.notes.push(format!("enumeration of group {group} capped at {enum_cap}"));
+                    if !interp {
+                        rep.notes.push(format!("enumeration of group {group} capped at {enum_cap}"));
+                    }
                     break;
                 }
                 None => break,
@@ -1382,7 +1388,7 @@ pub fn run(args: &Args, rep: &mut Report) {
 
     // 2. sizing sequences
     for (i, c) in fit_cases(thorough).iter().enumerate() {
-        if i as u64 % shards != shard {
+        if i as u64 % shards != shard || (interp && i % 97 != 0) {
             continue;
         }
         let (fails, exercised) = check_fit(c);
